@@ -9,7 +9,7 @@ LEAN = Path(__file__).resolve().parent.parent / "lean"
 
 # property -> list of (module, [explicit theorem names] or None = every theorem in the file)
 SPEC = {
-    "C01": [("MD.Props.C01", None), ("MD.Proofs.Unique", ["MD.C01_argmin_iff"]), ("MD.Proofs.MaxMin", ["MD.gpava_maxmin"]), ("MD.Proofs.Gpava", ["MD.gpava_spec"])],
+    "C01": [("MD.Props.C01", None), ("MD.Props.C01b", None), ("MD.Proofs.Unique", ["MD.C01_argmin_iff"]), ("MD.Proofs.MaxMin", ["MD.gpava_maxmin"]), ("MD.Proofs.Gpava", ["MD.gpava_spec"])],
     "C02": [("MD.Props.C02", None), ("MD.Props.C02b", None), ("MD.Proofs.QuantStage", ["MD.pinball_flat", "MD.qLower_le_qUpper", "MD.C02_optimal_inc"])],
     "C03": [("MD.Props.C03", None), ("MD.Proofs.ExpectileInst", ["MD.eSum_expectile", "MD.eSum_strictMono", "MD.expectile_le_iff"])],
     "C04": [("MD.Props.C04_HES", None), ("MD.Props.C04_HQS", None)],
@@ -20,7 +20,7 @@ SPEC = {
     "C09": [("MD.Props.C09", None)],
     "C10": [("MD.Props.C10", None), ("MD.Props.C10b", None)],
     "C11": [("MD.Props.C11", None), ("MD.Props.C11b", None)],
-    "C12": [("MD.Props.C12", None), ("MD.Props.C12b", None)],
+    "C12": [("MD.Props.C12", None), ("MD.Props.C12b", None), ("MD.Props.C01b", None)],
     "C13": [("MD.Props.C13", None)],
     "C14": [("MD.Props.C14", None), ("MD.Props.C04_HES", "re:C14_"), ("MD.Props.C04_HQS", "re:C14_")],
     "C15": [("MD.Props.C15", None), ("MD.Proofs.ElemIntegral", None)],
